@@ -1,4 +1,5 @@
 import Iauthd.Proto.Holds
+import Iauthd.Proto.Settle03H
 /-
   Property C03 — "No stuck clients: the verdict comes as soon as it can" (model part).
 
@@ -11,6 +12,14 @@ import Iauthd.Proto.Holds
     definition of `reqEvent` and `xqFinish` (each branch is `gate st …`), and the password
     handler calls it too (the F6 repair);
   * `C03_timeout_sticky`: the expiry is recorded in a flag that nothing clears.
+
+  **`C03_history`** puts these together into the statement about histories: after *every* history
+  of input chunks (any bytes, any chunking) and timer expiries, no request that is still in the
+  table could be accepted - none has, at the same time, no unmet +! demand, all the data the
+  loaded modules ask for (or a hurry-up) and no unanswered query (or an expired timeout).  So a
+  client for which these conditions have come true is no longer waiting at the end of the very
+  step that made them true: it was decided in that step (`C03_gate_complete`).  `C03_reload`: a
+  configuration reload does not change this.
 -/
 namespace Iauthd.Properties
 open Iauthd Iauthd.Proto
@@ -40,5 +49,48 @@ theorem C03_reply_gated (st : Static) (i : Nat) (c : Ctx) (cli : XqCli) (srv : S
 theorem C03_timeout_sticky (st : Static) (c : Ctx) :
     reqEvent st c .timeout =
       gate st (updReq c fun r => { r with soft := 0, timer := .fired, flags := { r.flags with timedOut := true } }) := rfl
+
+
+/-- **C03, every history**: in every reachable state, no stored request satisfies the acceptance
+    condition - in terms of the two counters and, equivalently, in terms of what they count. -/
+theorem C03_history (hasXq hasClass : Bool) (hdep : hasClass = true → hasXq = true) (ops : List Op)
+    (s' : State) (outs : List (List Bytes))
+    (h : runOps { hasXq := hasXq, hasClass := hasClass } ops = .ok (s', outs)) :
+    (∀ r ∈ s'.reqs, ¬ (r.holds = 0 ∧ s'.need.subset r.flags = true ∧ (r.soft = 0 ∨ r.flags.timedOut = true))) ∧
+    (∀ r ∈ s'.reqs, ∀ cli, r.xq = some cli →
+      ¬ (¬ (cli.modeBang = true ∧ r.account = []) ∧ s'.need.subset r.flags = true
+          ∧ (cli.ref = [] ∨ r.flags.timedOut = true))) := by
+  have hi0 := inv_init hasXq hasClass hdep
+  have hset0 : Settled ({ hasXq := hasXq, hasClass := hasClass } : State).static.need { hasXq := hasXq, hasClass := hasClass } := by
+    intro r hr; simp at hr
+  have hs := runOps_settled _ ops _ hi0 rfl hset0 s' outs h
+  obtain ⟨s2, o2, h2, hi2, hst⟩ := runOps_total_inv ops _ hi0
+  rw [h] at h2
+  simp only [Except.ok.injEq, Prod.mk.injEq] at h2
+  obtain ⟨rfl, _⟩ := h2
+  have hneed : s'.need = ({ hasXq := hasXq, hasClass := hasClass } : State).static.need := by
+    have := need_same hst
+    simpa [State.static] using this
+  have hh := runOps_hold ops _ hi0 (by intro r hr; simp at hr) s' outs h
+  constructor
+  · intro r hr; rw [hneed]; exact hs r hr
+  · intro r hr cli hx hc
+    apply hs r hr
+    rw [← hneed]
+    exact (gate_condition_iff s'.need r cli hx (hh r hr)).mpr hc
+
+/-- a reload changes neither the requests nor the set of loaded modules -/
+theorem C03_reload (need : Flags) (s : State) (h : Settled need s) (live new : Config) (first : Bool) :
+    Settled need (applyConfig s live new first).1 := by
+  have e : (applyConfig s live new first).1.reqs = s.reqs := by
+    unfold applyConfig
+    dsimp only
+    split <;> split <;> simp [servicesChanged, classChanged]
+  intro r hr; rw [e] at hr; exact h r hr
+
+/-- non-vacuity: the condition is satisfiable (such a request is what the gate accepts), so the
+    theorem says something: it is never found in the table -/
+example : Ready ({ gotHost := true } : Flags) ({ client := 5, serial := 1, flags := { gotHost := true } } : Req) := by
+  simp [Ready, Flags.subset]
 
 end Iauthd.Properties
